@@ -16,7 +16,7 @@ META = {
                    "R16.nofail: unwrap/expect sites not guarded by the filter have as receiver only the directory listing, the listing entry, "
                    "the entry's final component or its UTF-8 conversion; R16.siblings: the three summaries coincide.",
     "assumptions": ["file names are valid Unicode (property quantifier)", "OS directory listing behaviour is not modelled"],
-    "floors": {"R16.filter": 3, "R16.before": 3, "R16.nofail": 9},
+    "floors": {"R16.filter": 3, "R16.before": 3, "R16.nofail": 9, "R16.depth": 1},
 }
 
 PANICKY = ("::unwrap", "::expect", "::unwrap_unchecked")
@@ -24,6 +24,10 @@ PANICKY = ("::unwrap", "::expect", "::unwrap_unchecked")
 
 def run(ctx, crate):
     obs = []
+    # "at every directory depth": every sub-directory is entered, with nothing but `is a directory` deciding it (C03's obligations on the recursion)
+    from rules import depend
+    obs.append(depend.inherited(ctx, crate, "R16.depth", "analyze_dir x3", "every nested directory is entered, whatever its name (C03's obligations on the recursion and the loops)",
+                                "C03", lambda o: o.rule in ("R03.recurse", "R03.loops"), example="contracts/periphery/contracts/Helper.sol analysed with --path contracts"))
     summaries = {}
     for w in dirwalk.walks(crate):
         if not w.ok:
